@@ -4,7 +4,7 @@ treatment models, the balance of the generated sampling-weight formulas, the two
 behind AIPSW's double robustness.
 -/
 import ZepidVerif.Model.Generalize
-import ZepidVerif.Lemmas.Ipw
+import ZepidVerif.Lemmas.IpwPop
 import ZepidVerif.Lemmas.GFormula
 namespace ZV.Std
 open ZV
